@@ -407,9 +407,7 @@ def r4_representation_independence(ctx):
 
 
 def run(ctx):
-    r1_sinks(ctx)
-    r3_size_limit(ctx)
-    r4_representation_independence(ctx)
+    ctx.run_rules([r1_sinks, r3_size_limit, r4_representation_independence])
     ctx.note("NOT decided: agreement of results with a reference model (value level), e.g. the 64-bit field read across 9 bytes (observation F4) or the "
              "contents produced by rope operations")
     return (
